@@ -24,7 +24,7 @@ META = {
                'wavelength': '[0.4, 1.6] um', 'temperature': '[-20, 45] C', 'pressure': '[650, 1100] hPa', 'humidity': '[0, 100] %',
                'vapour pressure': '[0, 40] hPa', 'CO2': '[300, 600] ppm', 'distance': '[1, 5e4] m'},
     'outside': ['1 ppm agreement between the closed-form and the Ciddor branch (depends on values of exp, not its algebra) - NOT claimed',
-                'IEEE rounding'],
+                'IEEE rounding, except the bearing range [0, 360), which is decided on exact doubles (F-model, group bearing_ieee)'],
     'assumptions': ['floats are reals, literals exact decimals; exp/sin/cos/atan2/sqrt uninterpreted with axiom instances '
                     '(atan2 polar relation r sin a = y, r cos a = x)'],
 }
@@ -328,6 +328,57 @@ def g_params(tier, seed):
     return out
 
 
+_CF = [None]
+
+
+def g_bearing_ieee(tier, seed):
+    """bearing range in IEEE arithmetic (F-model): rect2polar with atan2 a nondeterministic double of every binade of [-pi, pi]
+    (environment stub constrained by its documented range), degrees() exact (CPython: one multiplication by the double 180/pi),
+    the +360 branch exact. The R-model claim 'bearing < 360' does not transfer to doubles when -theta is below half an ulp of 360."""
+    import math
+    import os
+    from vsym import fmodel as fm, instr
+    from checks.c08 import fmode
+    out = []
+    C = fm.XF.const(180.0 / math.pi)
+    cur = {}
+
+    def atan2_stub(x, y):
+        return cur['theta']
+
+    def fdegrees(x):
+        return x * 180.0 / math.pi if not isinstance(x, fm.XF) else fm.rn(x._scale(C.const_value()))
+    if _CF[0] is None:
+        sh = dict(fm.F_SHADOWS)
+        sh.update({'atan2': atan2_stub, 'degrees': fdegrees, 'sqrt': lambda v: 1.0})
+        _CF[0] = (instr.load_file(os.path.join(instr.REPO_ROOT, 'geodepy', 'convert.py'), 'vs_convert_f', sh), cur)
+    mod, cur = _CF[0]
+    binades = list(range(1, -75, -1)) if tier != 'quick' else [1, 0, -1, -8, -20, -40, -44, -45, -46, -47, -48, -52, -60, -74]
+    for E in binades:
+        for neg in (True, False):
+            def run():
+                t = fm.input_double('m_in', E, None, F_PI_UP if E == 1 else None)
+                cur['theta'] = -t if neg else t
+                r, th = mod.rect2polar(0.0, 1.0)
+                return fm.materialise(th) if isinstance(th, fm.XF) else th
+            with fmode():
+                paths, st = explore(run, max_paths=12, feas_timeout_ms=4000)
+            for p in paths:
+                name = 'rect2polar: bearing in [0, 360) on doubles, atan2 result %s in binade 2^%d' % ('negative' if neg else 'positive', E)
+                if p.kind != 'return':
+                    out.append(ob.res('O1', name, 'inconclusive', [], 'path %s: %s' % (p.kind, p.value)))
+                    continue
+                th = fm.XF.rat(p.value)
+                goal = z3.And(th.num >= 0, th.num < 360 * th.den) if th.slack() == 0 else z3.BoolVal(False)
+                out.append(ob.decide_goal('O1', name, ob.path_conds(p), goal, pid=PID, oracle='oracles.c19:bearing_ieee',
+                                          args_from_model=lambda env, E=E, neg=neg: {'m': int(env.get('m_in', 2 ** 52)), 'E': E, 'neg': neg},
+                                          key='O1:bearing-range-ieee', timeout_s=QT[tier]))
+    return out
+
+
+F_PI_UP = Fraction(884279719003555, 2 ** 48)      # the double pi: atan2 never exceeds it in magnitude
+
+
 def groups(tier):
     return [('joins', g_joins), ('vaconv', g_vaconv), ('atmosphere', g_atmosphere), ('co2_wiring', g_co2_wiring),
-            ('dispersion', g_dispersion), ('params', g_params)]
+            ('dispersion', g_dispersion), ('params', g_params), ('bearing_ieee', g_bearing_ieee)]
